@@ -48,7 +48,7 @@ def constants(tier):
     return dict(Zones=ZONES, Freqs=freqs,
                 Starts=[0, 6, 12, 22, 24, 27, 30] if th else [0, 12, 22, 27],
                 Ends=[8, 24, 30, 36, 48, 54, 60, 72] if th else [24, 30, 48, 60, 72],
-                Mtus=[list(MTU[m]) for m in (('h', 'd', 'min', '15min') if th else ('h', 'd'))],
+                Mtus=[list(MTU[m]) for m in (('h', 'd', 'min') if th else ('h', 'd'))],
                 WinStarts=[-6, 0, 6, 12, 24, 30, 48] if th else [0, 6, 24, 30],
                 WinEnds=[12, 24, 36, 48, 72, 96] if th else [12, 36, 48, 72],
                 CoarseFreqs=[dict(k=1, cal=True), dict(k=6, cal=False), dict(k=4, cal=False)] if th else [dict(k=1, cal=True), dict(k=6, cal=False)],
